@@ -56,10 +56,11 @@ type History struct {
 }
 
 const (
-	shapeSharedRoot    = "retained-root-record-equals-pruned-older-root"
-	shapeStaleFork     = "stale-index-entry-of-dead-fork-at-never-recommitted-height-shadows-live-version"
-	shapeStaleSurvived = "stale-index-entry-survived-recommit-dead-fork-root-record-rewritten-by-identical-root-at-other-height"
-	shapeMemTree       = "memtree-serves-stale-children-of-rewritten-recurring-root-record-after-prune"
+	shapeSharedRoot      = "retained-root-record-equals-pruned-older-root"
+	shapeStaleFork       = "stale-index-entry-of-dead-fork-at-never-recommitted-height-shadows-live-version"
+	shapeStaleSurvived   = "stale-index-entry-survived-recommit-dead-fork-root-record-rewritten-by-identical-root-at-other-height"
+	shapeMemTree         = "memtree-serves-stale-children-of-rewritten-recurring-root-record-after-prune"
+	shapeMemTreeRecommit = "memtree-recommit-replaces-dead-fork-node-under-same-key-stale-index-entry-survives"
 )
 
 // ---------------------------------------------------------------------------------------------
@@ -307,6 +308,11 @@ func (r *runner) snapshot() {
 	}
 	it.Close()
 	r.idxBefore = r.readIndex(func(k string) ([]byte, bool) { v, ok := r.kvBefore[k]; return v, ok }, r.kvBefore)
+	if os.Getenv("VERIF_C05_TRACE") != "" {
+		for _, e := range r.idxBefore {
+			fmt.Fprintf(os.Stderr, "  idx %q@%d %s old=%v\n", e.Key, e.H, printable(e.Hash), e.Old)
+		}
+	}
 }
 
 // readIndex decodes the leaf version index (both levels) in DB key order with the package's own parser.
@@ -644,6 +650,9 @@ func (r *runner) classify(m missNode) (shape, why string) {
 			case len(deadRoots) > 0 && recommitted && r.rootRecurs(deadRoots, e0.H):
 				got[shapeStaleSurvived] = fmt.Sprintf("%s deleted through index entry (%q@%d); the newest eligible entry (%q@%d) is a dead fork's; height %d WAS saved again but DelLeafCountKV did not remove it: the dead fork's root hash at %d was also produced by a Save at another height, which rewrote the unprefixed root record",
 					desc, c.Key, c.H, e0.Key, e0.H, e0.H, e0.H)
+			case len(deadRoots) > 0 && recommitted && r.h.Cfg.MemTree && !r.reachableFromRootsAt(e0.H, e0.Hash):
+				got[shapeMemTreeRecommit] = fmt.Sprintf("%s deleted through index entry (%q@%d); the newest eligible entry (%q@%d) is a dead fork's; height %d WAS saved again with memTree on, but DelLeafCountKV missed it: the entry's leaf is no longer reachable from any root recorded at height %d (the re-commit's pending nodes, published in memTree / saved under the same height-prefixed content key, replaced the dead fork's node)",
+					desc, c.Key, c.H, e0.Key, e0.H, e0.H, e0.H)
 			default:
 				got["stale-index-entry-survived:"+kind] = fmt.Sprintf("%s deleted through (%q@%d); newest eligible entry (%q@%d) is not a write of the current chain; height re-saved=%v savedOnDeadBranch=%v",
 					desc, c.Key, c.H, e0.Key, e0.H, recommitted, len(deadRoots) > 0)
@@ -690,7 +699,27 @@ func (r *runner) classify(m missNode) (shape, why string) {
 	return strings.Join(ss, "+"), strings.Join(ws, " | ")
 }
 
-var recordedShapes = map[string]bool{shapeSharedRoot: true, shapeStaleFork: true, shapeStaleSurvived: true, shapeMemTree: true}
+var recordedShapes = map[string]bool{shapeSharedRoot: true, shapeStaleFork: true, shapeStaleSurvived: true, shapeMemTree: true, shapeMemTreeRecommit: true}
+
+// reachableFromRootsAt walks (pre-prune snapshot) every root the DB recorded at height h and reports whether node is reachable.
+func (r *runner) reachableFromRootsAt(h int64, node string) bool {
+	pre := string(mavldb.VerifBRootHashPrefix(h))
+	for k := range r.kvBefore {
+		if !strings.HasPrefix(k, pre) {
+			continue
+		}
+		root, err := mavldb.VerifBRootFromKey([]byte(k))
+		if err != nil {
+			continue
+		}
+		visit := map[string]struct{}{}
+		r.walk(root, h, func(k string) ([]byte, bool) { v, ok := r.kvBefore[k]; return v, ok }, nil, visit, nil)
+		if _, ok := visit[node]; ok {
+			return true
+		}
+	}
+	return false
+}
 
 // onChainWrite: the current chain has a Save at the entry's height that wrote the entry's key.
 func (r *runner) onChainWrite(e idxEntry) bool {
@@ -796,6 +825,10 @@ func runHistory(h *History, dir string) (res HistResult) {
 	for i, op := range h.Ops {
 		if len(r.viols) > 0 || r.stop {
 			break
+		}
+		if os.Getenv("VERIF_C05_TRACE") != "" {
+			fmt.Fprintf(os.Stderr, "op %d %s d=%d tip=%d floor=%d max=%d\n", i, op.T, op.D, r.tipH(), r.floor, mavldb.VerifBMaxBlockHeight())
+			r.snapshot()
 		}
 		res.OpsDone = i
 		switch op.T {
@@ -1037,6 +1070,21 @@ func childHist(in []byte) (any, error) {
 	return out, nil
 }
 
+// multiLeafGenesis: the first commit writes at least two keys (generated histories never contain one-key states;
+// the minimiser must not drift into them: a one-leaf tree's root is an unprefixed leaf record, a different mechanism).
+func multiLeafGenesis(h *History) bool {
+	for _, op := range h.Ops {
+		if op.T == "commit" && len(op.KV) > 0 {
+			ks := map[string]bool{}
+			for _, kv := range op.KV {
+				ks[kv[0]] = true
+			}
+			return len(ks) >= 2
+		}
+	}
+	return false
+}
+
 type minIn struct {
 	H      History `json:"h"`
 	Want   string  `json:"want"`
@@ -1062,7 +1110,7 @@ func childMin(in []byte) (any, error) {
 	stratum := stratumOf(&h)
 	out := minOut{}
 	try := func(cand History) bool {
-		if out.Reruns >= mi.Budget || stratumOf(&cand) != stratum {
+		if out.Reruns >= mi.Budget || stratumOf(&cand) != stratum || !multiLeafGenesis(&cand) {
 			return false
 		}
 		out.Reruns++
@@ -1125,7 +1173,34 @@ func fixedWitnesses() []History {
 		{T: "commit", D: 1, KV: kv("b", "u5")},
 		{T: "commit", D: 1, KV: kv("b", "u6")},
 	}}
-	return []History{w1, w2}
+	// F-C05-3: fork A produces the same root at heights 1 and 2 (the root record is rewritten at 2); the re-commit of
+	// height 1 walks A's "root at 1", finds A@2's leaves and leaves A's index entry k@1 behind.
+	w3 := History{Gen: "witness-F-C05-3", Start: 0, Cfg: Cfg{PH: 2}, Ops: []Op{
+		{T: "commit", D: 1, KV: kv("z", "1", "k", "2")},
+		{T: "commit", D: 1, KV: kv("k", "3")},
+		{T: "commit", D: 1, KV: kv("k", "3")},
+		{T: "rollback", D: 2},
+		{T: "commit", D: 1, KV: kv("x", "u1")},
+		{T: "commit", D: 1, KV: kv("y", "u2")},
+		{T: "commit", D: 1, KV: kv("x", "u3")},
+		{T: "commit", D: 1, KV: kv("x", "u4")},
+	}}
+	// F-C05-4: memTree keeps the children of an older incarnation of a recurring root record.
+	w4 := History{Gen: "witness-F-C05-4", Start: 1, Cfg: Cfg{PH: 2, MemTree: true, UseSet: true}, Ops: []Op{
+		{T: "commit", D: 1, KV: kv("k0", "u1", "k00", "u2")},
+		{T: "commit", D: 1, KV: kv("k00", "3")},
+		{T: "commit", D: 1, KV: kv("k00", "2", "k", "1", "k0", "1")},
+		{T: "commit", D: 1, KV: kv("k0", "2")},
+		{T: "commit", D: 1, KV: kv("k0", "u3")},
+		{T: "commit", D: 1, KV: kv("k00", "2")},
+		{T: "commit", D: 3, KV: kv("k0", "1")},
+	}}
+	// F-C05-5: memTree + re-commit whose path node has the same height-prefixed content key as the dead fork's.
+	var w5 History
+	if err := json.Unmarshal([]byte(`{"idx": 0, "gen": "witness-F-C05-5", "start": 1, "cfg": {"ph": 2, "memtree": true}, "ops": [{"t": "commit", "d": 1, "kv": [["j", "1"], ["c", "3"]]}, {"t": "commit", "d": 1, "kv": [["a", "2"]]}, {"t": "commit", "d": 1, "kv": [["f", "u5"]]}, {"t": "commit", "d": 1, "kv": [["b", "2"]]}, {"t": "commit", "d": 1, "kv": [["d", "2"]]}, {"t": "commit", "d": 1, "kv": [["f", "2"]]}, {"t": "commit", "d": 1, "kv": [["c", "3"], ["d", "1"]]}, {"t": "rollback", "d": 3}, {"t": "commit", "d": 1, "kv": [["h", "u9"]]}, {"t": "reopen"}, {"t": "commit", "d": 1, "kv": [["b", "u10"]]}, {"t": "commit", "d": 3, "kv": [["i", "1"]]}, {"t": "rollback", "d": 2}, {"t": "commit", "d": 1, "kv": [["g", "1"]]}, {"t": "commit", "d": 1, "kv": [["d", "1"]]}, {"t": "commit", "d": 1, "kv": [["d", "3"]]}, {"t": "commit", "d": 1, "kv": [["c", "3"]]}, {"t": "prune"}]}`), &w5); err != nil {
+		panic(err)
+	}
+	return []History{w1, w2, w3, w4, w5}
 }
 
 var keyAlphabets = [][]string{
@@ -1335,7 +1410,7 @@ func run(c *lib.Ctx) {
 		jobs = append(jobs, job{w, stratumOf(&w)})
 		idx++
 	}
-	nClean, nTrig, nLarge := c.N(110, 2600), c.N(70, 1400), c.N(0, 20)
+	nClean, nTrig, nLarge := c.N(72, 2600), c.N(44, 1400), c.N(0, 20)
 	if c.Quick() {
 		nLarge = 0
 	}
@@ -1366,6 +1441,7 @@ func run(c *lib.Ctx) {
 			run = append(run, j)
 		}
 	}
+	t0 := time.Now()
 	const batch = 6
 	nb := (len(run) + batch - 1) / batch
 	results := make([]HistResult, len(jobs))
@@ -1386,6 +1462,7 @@ func run(c *lib.Ctx) {
 			mu.Unlock()
 		}
 	})
+	c.Extra("wall_histories_s", time.Since(t0).Seconds())
 	minimised := map[string]bool{}
 	knownSeen := map[string]bool{}
 	var adjacentSamples []any
@@ -1446,7 +1523,7 @@ func run(c *lib.Ctx) {
 	}
 	c.Extra("adjacent_failures_not_deciding", adjacentSamples)
 	c.Extra("known_witness_reproduced", map[string]bool{"F-C05-1": knownSeen[shapeSharedRoot], "F-C05-2": knownSeen[shapeStaleFork],
-		"F-C05-3": knownSeen[shapeStaleSurvived], "F-C05-4": knownSeen[shapeMemTree]})
+		"F-C05-3": knownSeen[shapeStaleSurvived], "F-C05-4": knownSeen[shapeMemTree], "F-C05-5": knownSeen[shapeMemTreeRecommit]})
 	c.RequireEvents("reads_compared", 2000)
 	c.RequireEvents("prune_runs_that_deleted", 20)
 	c.RequireEvents("recommits_at_used_height", 10)
